@@ -29,7 +29,7 @@ def make_filter(mode):
 
 
 def run_execution(prefix, plan, qsize, mode, horizon=4):
-    """plan: tuple per caller of tuple of call kinds ('sync' | 'cb' | 'async')."""
+    """plan: tuple per caller of tuple of call kinds ('sync' | 'cb' | 'cbt' (callback + timeout=) | 'async')."""
     threads.install()
     from pysyncobj import SyncObj, SyncObjConf, replicated, SyncObjException
     from mc.cluster import SimTransport
@@ -76,6 +76,10 @@ def run_execution(prefix, plan, qsize, mode, horizon=4):
                     s.results.append((tag, 'exc', e.errorCode))
             elif kind == 'cb':
                 obj.add(tag, callback=functools.partial(_cb, s, tag))
+                s.results.append((tag, 'submitted', None))
+            elif kind == 'cbt':
+                # asynchronous call that also passes the reserved 'timeout' parameter
+                obj.add(tag, callback=functools.partial(_cb, s, tag), timeout=5)
                 s.results.append((tag, 'submitted', None))
             else:
                 obj.add(tag)
@@ -133,7 +137,7 @@ def judge(s, obj, plan):
                             tag, rr[0][1], tag in items)
                     if rr[0][1] in (1, 2, 3, 4, 6) and tag in items:
                         return 'sync call %r raised error %r but was applied' % (tag, rr[0][1])
-            elif kind == 'cb':
+            elif kind in ('cb', 'cbt'):
                 cbs = [x for x in r if x[0] == 'cb']
                 if len(cbs) != 1:
                     return 'callback of call %r fired %d times (applied: %r)' % (tag, len(cbs), items)
@@ -205,6 +209,7 @@ def jobs_for(tier):
         ('2x1:sync+cb:q100', (('sync',), ('cb',)), 100, b, mode),
         ('2x2:sync,async+cb,sync:q100', (('sync', 'async'), ('cb', 'sync')), 100, b, mode),
         ('2x1:sync+sync:q0', (('sync',), ('sync',)), 0, b, mode),
+        ('2x1:cbt+sync:q100', (('cbt',), ('sync',)), 100, b, mode),
         ('3x1:sync+cb+async:q1', (('sync',), ('cb',), ('async',)), 1, b, mode),
         ('2x2:cb,cb+cb,cb:q1', (('cb', 'cb'), ('cb', 'cb')), 1, b, mode),
         ('2x1:sync+sync:q100:all-lines', (('sync',), ('sync',)), 100, 1, 'all'),
